@@ -55,6 +55,8 @@ type Scenario struct {
 	HotReaders int `json:"hotReaders"`
 	// StableClients (free mode, with WithStable): concurrent SetUint64/GetUint64 clients, one key each.
 	StableClients int `json:"stableClients"`
+	// Variant (bigread mode): which buffer-handoff schedule, see bigVariants.
+	Variant int `json:"variant"`
 }
 
 var out *bufio.Writer
@@ -384,11 +386,47 @@ func segStress(sc *Scenario) {
 	emit(map[string]any{"ev": "schedule", "len": 0, "passed": 0, "aborted": false, "reason": "", "solo": "", "soloHeld": 0})
 }
 
-// bigRead: entries larger than the 64 KiB read buffer take two ReadAt calls. Reader A is parked (sim fs ReadHook) before
-// its second ReadAt of GetLog(1) while reader B completes GetLog(2) and GetLog(3) on the same P (GOMAXPROCS(1), so that
-// the buffer pool hands B whatever A gave back); then A continues. Both must return exactly their entry.
+// bigRead: reads hand pooled 64 KiB buffers around; entries larger than the buffer take two ReadAt calls. Reader A is parked
+// (sim fs ReadHook / ReadDoneHook) at a chosen point of its GetLog - before or after its n-th ReadAt - while reader B
+// completes several GetLog calls on the same P (GOMAXPROCS(1), so that the buffer pool hands B whatever was given back);
+// then A continues. Before that, `prime` reads run alone (whatever they leave in the pool is what A and B will be handed).
+// Every read must return exactly its entry. Entries 1-3 are larger than the buffer, 4-6 small.
+//   variant 0: A = big entry parked before its 2nd ReadAt          (a buffer given back before its content was used)
+//   variant 1: one big read first; A = small entry parked after its ReadAt, B reads two small ones
+//   variant 2: two big reads first; A small parked after its ReadAt, B reads small and big
+//   variant 3: A = big entry parked after its 2nd ReadAt
+//   variant 4: one small read first; A = big entry parked after its 1st ReadAt
+//   variant 5, 6: after a clean restart (sealed segments are then read through their on-disk index: one small ReadAt for
+//                 the index entry, then the frame): A = small entry parked after / before its n-th ReadAt, B reads its
+//                 neighbours in the same sealed segment
+type bigVariant struct {
+	reopen bool
+	prime []uint64
+	a     uint64
+	post  bool // park after the ReadAt (ReadDoneHook) instead of before it
+	nth   int32
+	b     []uint64
+}
+
+var bigVariants = []bigVariant{
+	{false, nil, 1, false, 2, []uint64{2, 3}},
+	{false, []uint64{1}, 4, true, 1, []uint64{5, 6}},
+	{false, []uint64{1, 2}, 5, true, 1, []uint64{4, 3, 6}},
+	{false, nil, 2, true, 2, []uint64{1, 3}},
+	{false, []uint64{4}, 1, true, 1, []uint64{5, 2}},
+	{true, nil, 4, true, 1, []uint64{5, 6}},
+	{true, []uint64{6}, 5, false, 2, []uint64{4, 6}},
+	{true, nil, 2, true, 1, []uint64{1, 3}},
+}
+
+func metaImage(m *sim.Meta) *sim.Image {
+	st, stable := m.Current()
+	return &sim.Image{Meta: st, HasMeta: true, Stable: stable}
+}
+
 func bigRead(sc *Scenario) {
 	emit(map[string]any{"ev": "reset", "id": sc.ID, "mode": sc.Mode, "withCloser": false, "prog": []string{}})
+	v := bigVariants[sc.Variant%len(bigVariants)]
 	wd := &world{sc: sc, pool: valpool.New(sc.Seed, false)}
 	wd.rec = sim.NewRecorder()
 	wd.fs = sim.NewFS(wd.rec, sim.EmptyImage())
@@ -398,9 +436,13 @@ func bigRead(sc *Scenario) {
 		emit(map[string]any{"ev": "open", "res": "err", "msg": err.Error()})
 		return
 	}
-	defer wd.w.Close()
-	for i := uint64(1); i <= 3; i++ {
-		l := wd.pool.Log(valpool.Ent{Idx: i, Cid: int(i), Sz: 1, Bytes: 70000 + int(i)*8})
+	defer func() { wd.w.Close() }()
+	for i := uint64(1); i <= 7; i++ { // (7 is large again: in the small geometry it seals the segment that holds 4-6)
+		nb := 70000 + int(i)*8
+		if i > 3 && i < 7 {
+			nb = 40 + int(i)*8
+		}
+		l := wd.pool.Log(valpool.Ent{Idx: i, Cid: int(i), Sz: 1, Bytes: nb})
 		err := wd.w.StoreLogs([]*raft.Log{l})
 		emit(map[string]any{"ev": "wop", "op": "store", "idx": i, "cid": int(i), "res": class(err), "msg": emsg(err), "thr": 0})
 		if err != nil {
@@ -408,19 +450,30 @@ func bigRead(sc *Scenario) {
 		}
 	}
 	waitNoRotator()
+	if v.reopen {
+		if err := wd.w.Close(); err != nil {
+			emit(map[string]any{"ev": "close", "res": "err", "msg": err.Error()})
+			return
+		}
+		wd.meta = sim.NewMeta(wd.rec, metaImage(wd.meta))
+		if err := wd.open(); err != nil {
+			emit(map[string]any{"ev": "open", "res": "err", "msg": err.Error()})
+			return
+		}
+		waitNoRotator()
+	}
 	old := runtime.GOMAXPROCS(1)
 	defer runtime.GOMAXPROCS(old)
 	var aG int64
 	var nA int32
 	parked := make(chan struct{})
 	gate := make(chan struct{})
-	wd.rec.ReadHook = func(name string, off int64, n int) {
-		if sim.GID() == atomic.LoadInt64(&aG) && atomic.AddInt32(&nA, 1) == 2 {
+	hook := func(name string, off int64, n int) {
+		if sim.GID() == atomic.LoadInt64(&aG) && atomic.AddInt32(&nA, 1) == v.nth {
 			close(parked)
 			<-gate
 		}
 	}
-	defer func() { wd.rec.ReadHook = nil }()
 	read := func(p int, idx uint64) {
 		defer func() {
 			if x := recover(); x != nil {
@@ -433,22 +486,32 @@ func bigRead(sc *Scenario) {
 		if err == nil {
 			cid = wd.pool.Identify(idx, &lg)
 		}
-		emit(map[string]any{"ev": "read", "p": p, "kind": "get", "idx": idx, "res": class(err), "val": cid, "from": 3, "to": 3,
+		emit(map[string]any{"ev": "read", "p": p, "kind": "get", "idx": idx, "res": class(err), "val": cid, "from": 7, "to": 7,
 			"cs": 0, "msg": emsg(err), "sd": int64(1 << 30)})
 	}
+	for _, i := range v.prime {
+		read(3, i)
+	}
+	if v.post {
+		wd.rec.ReadDoneHook = hook
+	} else {
+		wd.rec.ReadHook = hook
+	}
+	defer func() { wd.rec.ReadHook, wd.rec.ReadDoneHook = nil, nil }()
 	doneA := make(chan struct{})
 	go func() {
 		defer close(doneA)
 		atomic.StoreInt64(&aG, sim.GID())
-		read(1, 1)
+		read(1, v.a)
 	}()
 	select {
 	case <-parked:
-	case <-doneA: // the entry came in one read: nothing to interleave on this tree
+	case <-doneA: // A never reached the parking point on this tree: nothing to interleave
 	case <-time.After(3 * time.Second):
 	}
-	read(2, 2)
-	read(2, 3)
+	for _, i := range v.b {
+		read(2, i)
+	}
 	close(gate)
 	select {
 	case <-doneA:
